@@ -394,6 +394,41 @@ def doc_to_text(j, rng=None, fancy=False):
     return ws() + go(j) + ws()
 
 
+
+HAND_TEXTS = [
+    "null", " true ", "false", "nul", "tru", "falsey", "nullx", "", " ", "[]", "{}", "[ ]", "{ }", "[1,]", "[,1]", "[1 2]",
+    '{"a":1,}', "{a:1}", '{"a" 1}', '{"a":}', '{"a":1 "b":2}', "[1,2", '{"a":1', '"abc', '"a\\', '"\\x"', '"\\u12"',
+    '"\\ud800"', '"\\udc00"', '"\\ud800\\u0041"', '"\\ud83d\\ude00"', '"\\uD83D\\uDE00"', '"\\ud800\\n"', '"\\ud800x"',
+    '"\\u0000"', '"\\u001f\\u007f\\u0080\\u07ff\\u0800\\uffff"', '"\\/\\b\\f\\n\\r\\t\\"\\\\"', '"\x01"', '"\t"', '"\x7f"', '"é😀"',
+    "0", "-0", "-0.0", "00", "01", "-01", "1.", ".5", "-", "+1", "1e", "1e+", "1E-", "1e5", "1E+5", "1e-5", "0e0", "0.0e0",
+    "1.5e300", "1e308", "1e309", "-1e309", "1e400", "1e-400", "-1e-400", "1e99999999999", "0e99999999999",
+    "1e-99999999999", "0.0e99999999999", "123456789012345678901234567890", "-123456789012345678901234567890",
+    "18446744073709551615", "18446744073709551616", "18446744073709551617.5", "18446744073709551615.5",
+    "1844674407370955161.7", "18446744073709551613.3", "184467440737095516157", "184467440737095516153",
+    "-9223372036854775808", "-9223372036854775809", "-18446744073709551615", "-18446744073709551616",
+    "9007199254740991.0", "9007199254740993", "9007199254740993.0", "0.1", "0.30000000000000004",
+    "1.7976931348623157e308", "1.79769313486231570815e308", "2.2250738585072014e-308", "5e-324", "4.9e-324", "2e-324",
+    "2.4703282292062327e-324", "2.4703282292062328e-324", "0." + "0" * 400 + "1", "1" + "0" * 400, "1" + "0" * 308,
+    "1" + "0" * 309, "0.1e1", "100e-2", "1.0000000000000000000000000000000000001", "\ufeff1", "1\u00a0", "1 2", "1,", "[1]]",
+    '{"a":1,"a":2,"b":{"a":3},"a":{"z":1,"y":2}}', '{"__blots_function":"sum"}', "[[[[[[[[1]]]]]]]]", '{"":{"":{"":0}}}',
+    "  \n\t\r [ \n 1 \t , \r 2 ] \n ", "1.0E+2", "1.0e+02", "1e0000000000000000000005", "-1.5E-0",
+]
+
+
+def gen_doc_from_table(rng, depth, nbits):
+    """documents whose floats come from the NUM table (their ryu texts are known to the model)"""
+    d = gen_doc(rng, depth)
+
+    def fix(j):
+        if j[0] == "d":
+            return ("d", rng.choice(nbits))
+        if j[0] == "a":
+            return ("a", [fix(x) for x in j[1]])
+        if j[0] == "o":
+            return ("o", [(k, fix(x)) for k, x in j[1]])
+        return j
+    return fix(d)
+
 # serde_json 1.0.x number parser WITHOUT float_roundtrip, transcribed (de.rs parse_integer ... f64_from_parts)
 U64_MAX = (1 << 64) - 1
 I32_MAX = (1 << 31) - 1
@@ -796,6 +831,125 @@ def main(argv):
     res.streams["FN-oracle"] = {"strings": len(fn_strings), "kinds": fn_kinds,
                                 "bodies": len(body_table)}
 
+    # ---------------------------------------------------------------- TEXT streams (serde_json text layer)
+    TREQS = REQS + ["Blots.JsonText"]
+    fixed_build = feats.get("number_parse") == "exact"
+
+    def f17_text(text):
+        """some number token of the text is converted differently by the shipped algorithm and by a correctly
+        rounded parser (or rejected by the shipped one): the case belongs to known-finding class C06-F17"""
+        try:
+            toks = []
+            collect_tokens(loads_tok(text), toks)
+        except Exception:
+            return False
+        for t in toks:
+            try:
+                if t.shipped_bits() != t.correct_bits():
+                    return True
+            except Exception:
+                return True
+        return False
+
+    # NUM: finite doubles -> serde_json's own text (ryu) -> serde_json's parse; model: scan, re-render, classify
+    n_num = 600 if quick else 8000
+    nbits = list(BOUNDARY_BITS)
+    while len(nbits) < n_num:
+        nbits.append(gen_bits(rng, False))
+    nouts = c.harness_lines_resilient(h, "c06-num", ["%016x" % b for b in nbits])
+    ntexts = [bytes.fromhex(o.split(" ")[0]).decode("ascii") for o in nouts]
+    fmt_table = {b: t for b, t in zip(nbits, ntexts)}
+    try:
+        nmodel = c.coq_eval_batch(TREQS, "", ['c06_num_line (hx "%s")' % hx(t) for t in ntexts], "c06num")
+    except c.BrokenTie as e:
+        res.tie_broken(e.what, e.detail)
+        nmodel = [None] * len(nbits)
+    num_mism = []
+    num_f17 = 0
+    ryu_bad = 0
+    for b, t, o, m in zip(nbits, ntexts, nouts, nmodel):
+        if f2b(float(t)) != b:
+            ryu_bad += 1           # H_print: the printed decimal denotes (rounds to) the double
+        cls17 = f17_text(t)
+        num_f17 += cls17
+        if cls17 and fixed_build:
+            continue
+        if m is None or m != o:
+            num_mism.append((b, t, o, m))
+    if ryu_bad:
+        res.violation("serde_json prints a finite double as a decimal that does not round back to it",
+                      {"kind": "num-print", "count": ryu_bad})
+    if num_mism:
+        b, t, o, m = num_mism[0]
+        res.tie_broken("correspondence C06/NUM: number token model and serde_json disagree on %d of %d doubles"
+                       % (len(num_mism), len(nbits)), "first: bits %016x text %s impl=%s model=%s" % (b, t, o, m))
+    res.streams["NUM"] = {"doubles": len(nbits), "mismatches": len(num_mism),
+                          "in_class_F17(shipped!=correct)": num_f17, "build_number_parse": feats.get("number_parse")}
+
+    # PARSE: JSON texts (valid with free layout/escapes/number spellings, and malformed) -> tree or ERR
+    n_txt = 500 if quick else 6000
+    texts = list(HAND_TEXTS)
+    for n in (100, 126, 127, 128, 200):
+        texts.append("[" * n + "]" * n)
+        texts.append('{"a":' * n + "1" + "}" * n)
+    while len(texts) < n_txt:
+        d = gen_doc(rng, 1 + rng.below(5), fn_rate=0)
+        t = doc_to_text(d, rng, fancy=True)
+        r = rng.below(10)
+        if r < 3 and t:
+            # malformed: delete / duplicate / replace one character, or truncate
+            i = rng.below(len(t))
+            k = rng.below(4)
+            if k == 0:
+                t = t[:i] + t[i + 1:]
+            elif k == 1:
+                t = t[:i] + t[i] + t[i:]
+            elif k == 2:
+                t = t[:i] + rng.choice(list('"\\,:[]{}0e.-x\n\x01')) + t[i + 1:]
+            else:
+                t = t[:i]
+        texts.append(t)
+    pouts = c.harness_lines_resilient(h, "c06-parse", [hx(t) for t in texts])
+    try:
+        pmodel = c.coq_eval_batch(TREQS, "", ['c06_parse_line (hx "%s")' % hx(t) for t in texts], "c06parse")
+    except c.BrokenTie as e:
+        res.tie_broken(e.what, e.detail)
+        pmodel = [None] * len(texts)
+    p_mism = []
+    p_f17 = 0
+    for t, o, m in zip(texts, pouts, pmodel):
+        cls17 = f17_text(t)
+        p_f17 += cls17
+        if cls17 and fixed_build:
+            continue
+        if m is None or m != o:
+            p_mism.append((t, o, m))
+    if p_mism:
+        t, o, m = p_mism[0]
+        res.tie_broken("correspondence C06/PARSE: JSON text parser model and serde_json::from_str disagree on %d of %d texts"
+                       % (len(p_mism), len(texts)), "first: text %r impl=%s model=%s" % (t, o, m))
+    res.streams["PARSE"] = {"texts": len(texts), "mismatches": len(p_mism), "rejected_by_impl": sum(1 for o in pouts if o == "ERR"),
+                            "in_class_F17": p_f17}
+
+    # PRINT: document trees -> serde_json::to_string vs the model's jprint (float texts from the NUM table)
+    n_pr = 400 if quick else 5000
+    pdocs = []
+    while len(pdocs) < n_pr:
+        pdocs.append(gen_doc_from_table(rng, 1 + rng.below(5), nbits))
+    prouts = c.harness_lines_resilient(h, "c06-print", [enc_json(d) for d in pdocs])
+    tbl = "Definition FMT := table_fmt [%s].\n" % "; ".join('(0x%016x, hx "%s")' % (b, hx(t)) for b, t in sorted(fmt_table.items()))
+    try:
+        prmodel = c.coq_eval_batch(TREQS, tbl, ["hex_of_string (jprint FMT (sj_build %s))" % coq_json(d) for d in pdocs], "c06print")
+    except c.BrokenTie as e:
+        res.tie_broken(e.what, e.detail)
+        prmodel = [None] * len(pdocs)
+    pr_mism = [(d, o, m) for d, o, m in zip(pdocs, prouts, prmodel) if m is None or m != o]
+    if pr_mism:
+        d, o, m = pr_mism[0]
+        res.tie_broken("correspondence C06/PRINT: printer model and serde_json::to_string disagree on %d of %d documents"
+                       % (len(pr_mism), len(pdocs)), "first: doc %s impl=%s model=%s" % (enc_json(d), o, m))
+    res.streams["PRINT"] = {"documents": len(pdocs), "mismatches": len(pr_mism)}
+
     # ---------------------------------------------------------------- search 1: in process, THROUGH TEXT
     n_rt = 4000 if quick else 60000
     rts = []
@@ -933,7 +1087,8 @@ def main(argv):
         else:
             res.known("%s %s" % (kid, e.get("what", "")))
 
-    res.coverage["evaluations"] = len(vals) + len(docs) + len(rts) + 2 * len(jobs)
+    res.coverage["evaluations"] = (len(vals) + len(docs) + len(rts) + 2 * len(jobs) + len(nbits) + len(texts)
+                                   + len(pdocs))
     res.coverage["distinct_nontrivial"] = (len({enc_value(v) for v in vals if v[0] in ("list", "rec")})
                                            + len({enc_json(d) for d in docs if d[0] in ("a", "o")})
                                            + len({enc_value(v) for v in rts}))
@@ -943,7 +1098,9 @@ def main(argv):
     res.coverage["samples"] = ([{"stream": "VAL", "value": enc_value(vals[i]), "impl": val_rust[i]} for i in (5, 6, 7)]
                                + [{"stream": "CLI", "input": jobs[i][1][:300], "via": jobs[i][2],
                                    "stdout": results[i][1].strip()[:300]} for i in (40, 41)])
-    res.coverage["traces_validated_against_impl"] = (len(vals) - len(mism)) + (len(docs) - len(jm))
+    res.coverage["traces_validated_against_impl"] = ((len(vals) - len(mism)) + (len(docs) - len(jm))
+                                                     + (len(nbits) - len(num_mism)) + (len(texts) - len(p_mism))
+                                                     + (len(pdocs) - len(pr_mism)))
     res.assumptions = [
         "JSON text <-> double conversion is library code (serde_json/ryu): hypothesis of the text-level theorem, "
         "validated by sampling; FALSE for the shipped build (known finding C06-F17)",
